@@ -213,7 +213,10 @@ func (rt *runtime) cmplEvaluateNodeForInStatement(node *nodeForInStatement) Valu
 				case valueResult:
 					switch value.evaluateBreakContinue(labels) {
 					case resultReturn:
+						// An abrupt completion ends the statement, not just
+						// the enumeration of this object of the prototype chain
 						enumerateValue = value
+						obj = nil
 						return false
 					case resultBreak:
 						obj = nil
@@ -228,13 +231,13 @@ func (rt *runtime) cmplEvaluateNodeForInStatement(node *nodeForInStatement) Valu
 			}
 			return true
 		})
+		if !enumerateValue.isEmpty() {
+			result = enumerateValue
+		}
 		if obj == nil {
 			break
 		}
 		obj = obj.prototype
-		if !enumerateValue.isEmpty() {
-			result = enumerateValue
-		}
 	}
 	return result
 }
